@@ -159,7 +159,7 @@ fn run_scenario(sc: &Value, idx: usize, bin: &Path, scratch: &Path, local: bool)
         // target instead (the output directory of the musl target is a link to it) and C compilers
         // that only have to exist
         let host = format!("{}-unknown-linux-gnu", std::env::consts::ARCH);
-        let wrapper = format!("#!/bin/sh\nn=$#\nwhile [ $n -gt 0 ]; do a=\"$1\"; shift; n=$((n-1))\n  case \"$a\" in *-unknown-linux-musl) a={host};; esac\n  set -- \"$@\" \"$a\"\ndone\nexec {cargo} \"$@\"\n");
+        let wrapper = format!("#!/bin/sh\nif [ \"$1\" = build ] && [ -f \"$STANDIN_STATE/cargo-fail-at\" ]; then\n  done_builds=$(cat \"$STANDIN_STATE/count-pack-build\" 2>/dev/null || echo 0)\n  if [ \"$done_builds\" = \"$(cat \"$STANDIN_STATE/cargo-fail-at\")\" ]; then echo 'error: scripted compile failure' >&2; exit 101; fi\nfi\nn=$#\nwhile [ $n -gt 0 ]; do a=\"$1\"; shift; n=$((n-1))\n  case \"$a\" in *-unknown-linux-musl) a={host};; esac\n  set -- \"$@\" \"$a\"\ndone\nexec {cargo} \"$@\"\n");
         w("bin/cargo", &wrapper);
         for n in ["cargo", "musl-gcc", "x86_64-linux-gnu-gcc", "aarch64-linux-gnu-gcc"] {
             use std::os::unix::fs::PermissionsExt;
@@ -177,7 +177,7 @@ fn run_scenario(sc: &Value, idx: usize, bin: &Path, scratch: &Path, local: bool)
         let o = &s["outcome"];
         let mut push = |k: &'static str, v: &str| plan.entry(k).or_default().push(v.to_string());
         match step {
-            "build" | "rebuild" => push("pack-build", o["pack"].as_str().unwrap()),
+            "build" | "rebuild" => { if o["pack"] != "nopack" { push("pack-build", o["pack"].as_str().unwrap()) } }
             "shell" => push("run-oneshot", o.as_str().unwrap()),
             "sbom" => push("sbom", o.as_str().unwrap()),
             "start_container" => push("run-detached", o.as_str().unwrap()),
@@ -186,6 +186,9 @@ fn run_scenario(sc: &Value, idx: usize, bin: &Path, scratch: &Path, local: bool)
             "port" => { push("port", o.as_str().unwrap()); if o == "fail" { push("logs", "ok"); } }
             _ => {}
         }
+    }
+    if let Some(k) = script.iter().filter(|s| s["step"] == "build" || s["step"] == "rebuild").position(|s| s["outcome"]["pack"] == "nopack") {
+        fs::write(d.join("state/cargo-fail-at"), k.to_string()).unwrap();
     }
     fs::write(d.join("state/plan.json"), json!(plan).to_string()).unwrap();
     fs::write(d.join("scenario.json"), json!({"script": script, "cfg": cfg}).to_string()).unwrap();
@@ -209,7 +212,9 @@ fn run_scenario(sc: &Value, idx: usize, bin: &Path, scratch: &Path, local: bool)
     let expected_panic = sc["panics"] == true;
     // a configuration whose buildpacks cannot even be packaged never reaches pack: that is C17's
     // business ("every build configuration results in one pack build invocation"), not C16's
-    let packaging_failed = local && stderr.contains("Error packaging");
+    let nopack = script.iter().any(|s| s["outcome"]["pack"] == "nopack");
+    if nopack && !stderr.contains("Error packaging") { p16.push("the scripted compile failure of a local buildpack did not stop the build".into()); }
+    let packaging_failed = local && stderr.contains("Error packaging") && !nopack;
     if packaging_failed {
         p17.push(format!("pack build: never invoked because a configured buildpack could not be packaged: references {}: {}", cfg["buildpacks"], stderr.lines().find(|l| l.contains("Error packaging")).unwrap_or("")));
     }
@@ -395,11 +400,16 @@ fn main() {
     let raw: Vec<Value> = if single { vec![serde_json::from_str(&fs::read_to_string(&input).unwrap()).unwrap()] } else { read_tlc_tagged(&input, "SC") };
     let limit: usize = std::env::var("VERIF_LIMIT").ok().and_then(|s| s.parse().ok()).unwrap_or(usize::MAX);
     let raw: Vec<Value> = raw.into_iter().take(limit).collect();
-    let mut results = par_map(&raw, threads(), |i, sc| run_scenario(sc, i, &bin, &scratch, sc["local"] == true));
+    // a compile failure of a local buildpack (pack = "nopack") needs the local mode
+    let is_nopack = |sc: &Value| sc["script"].as_array().unwrap().iter().any(|s| s["outcome"]["pack"] == "nopack");
+    let (nopack_scs, raw): (Vec<Value>, Vec<Value>) = if single { (vec![], raw) } else { raw.into_iter().partition(|sc| is_nopack(sc)) };
+    let mut results = par_map(&raw, threads(), |i, sc| run_scenario(sc, i, &bin, &scratch, sc["local"] == true || is_nopack(sc)));
     // a sample of the scenarios again, with locally packaged buildpacks (really compiled)
     let n_local: usize = std::env::var("VERIF_LOCAL").ok().and_then(|s| s.parse().ok()).unwrap_or(48);
     let local_scs: Vec<Value> = if single { vec![] } else { raw.iter().step_by((raw.len() / n_local.max(1)).max(1)).take(n_local).cloned().map(|mut v| { v["local"] = json!(true); v }).collect() };
     let mut local_scs = local_scs;
+    let n_nopack: usize = std::env::var("VERIF_NOPACK").ok().and_then(|s| s.parse().ok()).unwrap_or(60);
+    local_scs.extend(nopack_scs.iter().step_by((nopack_scs.len() / n_nopack.max(1)).max(1)).take(n_nopack).cloned().map(|mut v| { v["local"] = json!(true); v }));
     if let Some(lp) = std::env::var_os("VERIF_LP") {
         for c in read_tlc_tagged(Path::new(&lp), "LP") {
             local_scs.push(json!({"local": true, "refs": c["refs"], "panics": false,
